@@ -1020,6 +1020,24 @@ ANSI = "src/sqlfluff/dialects/dialect_ansi.py"
 
 VARIANTS: List[Variant] = [
     Variant(
+        "quiet-cv07-trailing-nodes-starred-into-the-edit", "src/sqlfluff/rules/convention/CV07.py",
+        "                    fixes.append(LintFix.create_after(parent, list(trailing)))\n",
+        "                    fixes.append(LintFix.create_after(parent, [*trailing]))\n",
+        QUIET, None, "list() spelled as a starred display",
+    ),
+    Variant(
+        "cv07-trailing-nodes-reversed-at-the-edit", "src/sqlfluff/rules/convention/CV07.py",
+        "                    fixes.append(LintFix.create_after(parent, list(trailing)))\n",
+        "                    fixes.append(LintFix.create_after(parent, list(reversed(trailing))))\n",
+        "R12f", "Rule_CV07._eval", "a third reversal at the edit site",
+    ),
+    Variant(
+        "cv07-leading-nodes-by-negative-step-slice", "src/sqlfluff/rules/convention/CV07.py",
+        "                    fixes.append(LintFix.create_before(parent, list(leading)))\n",
+        "                    fixes.append(LintFix.create_before(parent, list(leading)[::-1]))\n",
+        "R12f", "Rule_CV07._eval", "reversal by slice",
+    ),
+    Variant(
         "cv07-trailing-nodes-lifted-in-scan-order", "src/sqlfluff/rules/convention/CV07.py",
         "                filtered_children.reversed()\n                .select(loop_while=to_lift_predicate)\n                .reversed()\n",
         "                filtered_children.reversed()\n                .select(loop_while=to_lift_predicate)\n",
